@@ -95,6 +95,23 @@ SEEDS = [
  ('C14-4', '_round4/C14', 'patch2.diff', 'demo2_test.py', 'C14', ['C14'], 'pickle persister: one process holding an untagged and a tagged checkpoint, then any listing'),
  ('C16-4', '_round4/C16', 'patch.diff', 'demo_test.py', 'C16', ['C16'], 'rpc pause then rpc play before the pause handler ran'),
  ('C16-5', '_round4/C16', 'patch2.diff', 'demo2_test.py', 'C16', ['C16'], 'same-label transitions (running->running of Continue / outline steps) with a communicator'),
+ # round 5 (made against the repaired tree at 4e8c357)
+ ('C14-5', '_round5/C14', 'patch.diff', 'demo_test.py', 'C14', ['C14'], 'pickle persister: two pids in a textual prefix relation (1 / 12), delete_process_checkpoints of the shorter one'),
+ ('C14-6', '_round5/C14', 'patch2.diff', 'demo2_test.py', 'C14', ['C14'], 'in-memory persister: the same (pid, tag) saved twice with progress in between, then loaded'),
+ ('C01-4', '_round5/C01', 'patch.diff', 'demo_test.py', 'C01', ['C01'], 'direct fail() after FINISHED or KILLED has been reached'),
+ ('C01-5', '_round5/C01', 'patch2.diff', 'demo2_test.py', 'C01', ['C01', 'C04', 'C02'], 'kill() issued from an ENTERING_STATE/EXITING_STATE callback or on_finish override during the transition into FINISHED: carried out after FINISHED (-> EXCEPTED)'),
+ ('C02-4', '_round5/C02', 'patch.diff', 'demo_test.py', 'C02', ['C02'], 'pause in effect with the stepping task parked, then termination other than kill (fail()): stepper never released'),
+ ('C02-5', '_round5/C02', 'patch2.diff', 'demo2_test.py', 'C02', ['C02', 'C01'], 'kill() during a waiting step then fail() before the stepper resumes: EXCEPTED entered twice, exception replaced'),
+ ('C12-4', '_round5/C12', 'patch.diff', 'demo_test.py', 'C12', ['C12'], 'typed dynamic output namespace, wrongly typed value >= 2 levels below through a dynamically created sub-namespace (second occurrence)'),
+ ('C12-5', '_round5/C12', 'patch2.diff', 'demo2_test.py', 'C12', ['C12'], 'rejected output for a nested port whose namespace holds no outputs yet: empty dicts stay behind (second occurrence)'),
+ ('C13-4', '_round5/C13', 'patch.diff', 'demo_test.py', 'C13', ['C13', 'C06'], 'Wait(f) resumed with a falsy value (0, empty string, False): f() instead of f(v)'),
+ ('C13-5', '_round5/C13', 'patch2.diff', 'demo2_test.py', 'C13', ['C13', 'C07'], 'Continue(f, **k), checkpoint restored before the next step: kwargs lost (two cooperating edits)'),
+ ('C17-4', '_round5/C17', 'patch.diff', 'demo_test.py', 'C17', ['C17'], 'create task with persist=True sent to a launcher without persister: accepted instead of rejected'),
+ ('C17-5', '_round5/C17', 'patch2.diff', 'demo2_test.py', 'C17', ['C17', 'C14'], 'continue task for a tag never saved while an untagged checkpoint exists (in-memory persister)'),
+ ('C18-4', '_round5/C18', 'patch.diff', 'demo_test.py', 'C18', ['C18'], 'nested execute(): inner step schedules a callback of the outer process (outer on the stack, not on top)'),
+ ('C18-5', '_round5/C18', 'patch2.diff', 'demo2_test.py', 'C18', ['C18', 'C03'], 'hook raising out of a synchronous control request (on_playing from play()) made from another process step or plain code that catches it'),
+ ('C19-4', '_round5/C19', 'patch.diff', 'demo_test.py', 'C19', ['C19'], 'plain member holding a nested mutable (list inside dict) mutated in place after save'),
+ ('C19-5', '_round5/C19', 'patch2.diff', 'demo2_test.py', 'C19', ['C19'], 'per-save custom loader whose identifiers differ from module:name'),
 ]
 
 
